@@ -133,6 +133,9 @@ func runC09(c *Ctx, si interface{}) {
 		c.Count("pilot_"+pilot.Kind, 1)
 		return
 	}
+	if s.Char != nil && len(pilot.Tape.CharLists) == 0 {
+		panic(sentCannotDrive) // the alphabet never passed through hook H2: index order not owned, results not comparable
+	}
 	R := len(pilot.Tape.Reads)
 	used := wordsOf(pilot.Tape.Served)
 	c.Count("pilot_reads", int64(R))
